@@ -833,6 +833,19 @@ def _min2(eng, node, *a, **kw):
     return _old_min(eng, node, *a, **kw)
 
 
+@reg("builtins.max")
+def _max2(eng, node, *a, **kw):
+    if len(a) == 1 and isinstance(a[0], SDict) and not kw and a[0].dom.sort().domain() == z3.IntSort():
+        # max over the (integer) keys of a dict / the nodes of a graph: a key that no key exceeds
+        d = a[0]
+        k = z3.Int("_mk")
+        eng.may_raise("ValueError", z3.Not(z3.Exists([k], d.dom[k])), node, "max of an empty sequence")
+        m = eng.fresh("max_key", TInt)
+        eng.assume(z3.And(d.dom[m], z3.ForAll([k], z3.Implies(d.dom[k], k <= m))))
+        return m
+    return _max(eng, node, *a, **kw)
+
+
 @reg("numpy.random.randint")
 def _np_randint(eng, node, low, high=None, size=None):
     if size is not None:
